@@ -20,6 +20,12 @@ class PROP(Prop):
             cs.append(Case("FC %d" % n, {"k": "fc", "n": n}))
             cs.append(Case("EX %d" % n, {"k": "ex", "n": n}))
             cs.append(Case("SLD %d" % n, {"k": "sld", "n": n}))
+        # the slave / unit id on the wire is the slave id the service is given and the one the client stamps, for all 256 values
+        for n in range(256):
+            for proto in ("tcp", "rtu"):
+                fr = mb.tcp_frame(3, n, b"\x11") if proto == "tcp" else mb.rtu_frame(n, b"\x11")
+                cs.append(Case("SRV %s d%s - - n" % (proto, fr.hex()), {"k": "slave_in", "n": n}))
+                cs.append(Case("CLI %s %d call RSI - - - -" % (proto, n), {"k": "slave_out", "n": n, "proto": proto}))
         def sp(n, s, exp=True):
             cs.append(Case("SLP " + s.encode().hex(), {"k": "slp", "n": n, "s": s, "spec": exp}))
         for n in range(65536):
@@ -66,6 +72,12 @@ class PROP(Prop):
             n = m["n"]
             want = "S %d" % n if n < 256 else "E"
             return None if r == want else "Slave::from_str(%r): got %r want %r" % (m["s"], r, want)
+        if k == "slave_in":
+            return None if r.startswith("C:%d:RSI," % m["n"]) else "request for slave id %d reached the service as %s" % (m["n"], r[:40])
+        if k == "slave_out":
+            w = r.split(" w=")[-1].split(" q=")[0]
+            got = int(w[12:14], 16) if m["proto"] == "tcp" and len(w) >= 14 else (int(w[0:2], 16) if len(w) >= 2 else -1)
+            return None if got == m["n"] else "client selected slave %d but stamped %d on the frame %s" % (m["n"], got, w[:40])
         if k in ("rfc", "pfc"):
             return None if r == str(m["fc"]) else "function_code() = %r, want %d" % (r, m["fc"])
         if k == "reqwire":
